@@ -10,7 +10,7 @@ open ShVerif ShVerif.L5
     stmt  ::= ( s NEG cmd )                         NEG ::= 0 | 1
     cmd   ::= ( true ) | ( false ) | ( exit [N] ) | ( ret [N] ) | ( brk [I] ) | ( cont [I] )
             | ( sete B ) | ( setpf B ) | ( trapexit stmt* ) | ( traperr stmt* )
-            | ( echo part* ) | ( test X NEG S ) | ( assign X part* ) | ( asub X stmt* )
+            | ( echo part* ) | ( echosub ( part* ) ( stmt* ) ( part* ) ) | ( test X NEG S ) | ( assign X part* ) | ( asub X stmt* )
             | ( call F ) | ( block stmt* ) | ( subsh stmt* ) | ( and stmt stmt ) | ( or stmt stmt )
             | ( pipe stmt stmt ) | ( if ( stmt* ) ( stmt* ) else ) | ( while B ( stmt* ) ( stmt* ) )
             | ( for X ( S* ) stmt* ) | ( case ( part* ) item* ) | ( fn F stmt )
@@ -124,6 +124,10 @@ mutual
         match atomStr x, progOf n ps with
         | some x, some p => some (.assignSub x p)
         | _, _ => none
+      | "echosub", [.list w1, .list ps, .list w2] =>
+        match w1.mapM partOf, progOf n ps, w2.mapM partOf with
+        | some w1, some p, some w2 => some (.echoSub w1 p w2)
+        | _, _, _ => none
       | "call", [f] => (atomStr f).map .call
       | "block", ps => (progOf n ps).map .block
       | "subsh", ps => (progOf n ps).map .subsh
